@@ -192,7 +192,9 @@ Fixpoint fire_loop (h : handler) (m : nat) (c : Z) (fuel : nat) (st : opst) : op
 Inductive oop :=
 | OEv (s : N) (id : N) (key : N) (timers : list pbts)
 | OWm (s : N) (p : pbts)
-| OComplete (s : N).   (* SourceComplete from runner s (at least one other runner stays active) *)
+| OComplete (s : N)    (* SourceComplete from runner s (at least one other runner stays active) *)
+| ODeploy (ids : list N).  (* HandleDeploy on the live operator (redeploy): new database, NEW timer registry for the
+                              deployment's source runners; the event batcher (pending batch) is the operator's own *)
 
 Definition op_step (h : handler) (m : nat) (st : opst) (o : oop) : opst * list call :=
   match o with
@@ -204,6 +206,7 @@ Definition op_step (h : handler) (m : nat) (st : opst) (o : oop) : opst * list c
       (* handleSourceComplete: the pending batch is processed, the runner is marked inactive; its last report
          STAYS in the upstream table - a finished runner still counts in the minimum *)
       process_batch h st
+  | ODeploy ids => ({| o_reg := reg_new ids; o_batch := o_batch st |}, [])
   end.
 
 (* calls grouped per incoming event *)
@@ -219,4 +222,19 @@ Fixpoint oop_msgs (ops : list oop) : list (N * Z) :=
   | OWm s p :: r => (s, as_time p) :: oop_msgs r
   | OEv _ _ _ _ :: r => oop_msgs r
   | OComplete _ :: r => oop_msgs r
+  | ODeploy _ :: r => oop_msgs r
   end.
+
+(* SPECIFICATION across deployments: the current deployment's configured runners and the watermark messages it
+   has handled; a (re)deploy starts a new deployment in which nobody has reported yet. *)
+Definition dstep (d : list N * list (N * Z)) (o : oop) : list N * list (N * Z) :=
+  match o with
+  | ODeploy ids => (ids, [])
+  | OWm s p => (fst d, snd d ++ [(s, as_time p)])
+  | _ => d
+  end.
+Definition drun (d : list N * list (N * Z)) (ops : list oop) : list N * list (N * Z) := fold_left dstep ops d.
+
+(* the composite watermark the operator must be at after the history `pre`, started with configured runners ids0 *)
+Definition spec_at (ids0 : list N) (pre : list oop) : Z :=
+  let d := drun (ids0, []) pre in spec_composite (fst d) (snd d).
